@@ -642,6 +642,9 @@ class apply_backward_step(Method):
         def search_thm(th_name):
             try:
                 pt = tactic.rule().get_proof_term(cur_item.th, args=th_name, prevs=prevs)
+                if not pt.th.can_prove(cur_item.th):
+                    # matches the goal only up to beta-eta conversion: cannot be applied
+                    return
                 results.append({"theorem": th_name, "_goal": [gap.prop for gap in pt.gaps]})
             except theory.ParameterQueryException:
                 # In this case, still suggest the result
